@@ -396,6 +396,66 @@ def model(draw, kind=None, want_mix=False, nsol=None):
     return m
 
 
+@st.composite
+def cells_model(draw):
+    """>= 2 cells (solution n + EQUILIBRIUM_PHASES n') that share the element set and the phase SET but differ in target
+    SI, amounts and dissolve_only flags.  All solutions are defined (and their initial-solution calculations done) in
+    simulation 1; the cells are reacted afterwards either by one RUN_CELLS block or by consecutive USE ... END simulations,
+    with nothing in between that would make the engine rebuild its model."""
+    k = draw(st.integers(2, 4))
+    numbers = draw(st.lists(st.integers(0, 30), min_size=k, max_size=k, unique=True))
+    enumbers = draw(st.lists(st.integers(0, 30), min_size=k, max_size=k, unique=True))
+    mode = draw(st.sampled_from(["run_cells", "use"]))
+    if mode == "run_cells":
+        enumbers = list(numbers)
+    base = draw(solution(numbers[0], False, min_groups=3, max_groups=6))
+    sols = [base]
+    for i in range(1, k):
+        s = {"n": numbers[i], "pH": draw(uni(5.0, 9.0, 3)), "pe": 4.0, "pH_opt": "", "temp": draw(st.sampled_from([25.0, base["temp"]])),
+             "water": draw(st.one_of(st.just(1.0), logu(0.2, 5.0, 3))),
+             "comps": [{"el": c["el"], "c": float("%.4g" % (c["c"] * draw(logu(0.3, 3.0, 3)))), "opt": ""} for c in base["comps"]]}
+        sols.append(s)
+    for s in sols:
+        s["pe"] = round(min(max(s["pe"], 9.0 - s["pH"]), 15.0 - s["pH"]), 2)
+        s["pH_opt"] = "" if s is not base else s["pH_opt"]
+    first = draw(eq_phases(enumbers[0], buffer_ok=False))["phases"]
+    dbx = dbparse.load(DB)
+    present = {("C" if c["el"] == "Alkalinity" else c["el"].split("(")[0]) for c in base["comps"]}
+    cells = []
+    for i in range(k):
+        ph = []
+        for p0 in first:
+            gas = p0["name"].endswith("(g)")
+            q = {"name": p0["name"],
+                 "si": p0["si"] if i == 0 else (draw(uni(-3.5, -0.5, 3)) if gas else draw(st.sampled_from([0.0, 0.4, -0.3, 0.2]))),
+                 "moles": p0["moles"] if i == 0 else draw(st.sampled_from([0.0, 0.01, 1.0, p0["moles"]])),
+                 "flag": "" if gas else draw(st.sampled_from(["", "", "", "dissolve_only", "precipitate_only"]))}
+            if q["flag"] == "dissolve_only" and q["moles"] == 0.0:
+                q["moles"] = 0.01
+            # a phase whose elements are not all in the water must be able to dissolve ("Pure phase has not converged")
+            pel = set(dbx.phase(q["name"]).elements) - {"H", "O"}
+            if not pel <= present:
+                q["flag"] = "" if q["flag"] == "precipitate_only" else q["flag"]
+                q["moles"] = q["moles"] if q["moles"] > 0 else 0.01
+            ph.append(q)
+        cells.append({"n": numbers[i], "en": enumbers[i], "phases": ph})
+    return {"db": DB, "kind": "cells", "mode": mode, "sols": sols, "cells": cells, "eq": None, "rx": None, "ex": None, "su": None,
+            "gas": None, "kin": None, "save": None, "st2": None, "mixn": 0, "src": [[numbers[0], 1.0]], "has_reaction": True}
+
+
+@st.composite
+def cells_renumbering(draw, m):
+    olds = [c["n"] for c in m["cells"]]
+    news = draw(st.lists(st.integers(0, 60), min_size=len(olds), max_size=len(olds), unique=True))
+    smap = [[o, n] for o, n in zip(olds, news)]
+    if m["mode"] == "run_cells":
+        emap = [list(x) for x in smap]
+    else:
+        enews = draw(st.lists(st.integers(0, 60), min_size=len(olds), max_size=len(olds), unique=True))
+        emap = [[c["en"], n] for c, n in zip(m["cells"], enews)]
+    return {"solution": smap, "equilibrium_phases": emap, "mix": []}
+
+
 def keys_list(n=24):
     return st.lists(st.integers(0, 99), min_size=n, max_size=n)
 
@@ -424,7 +484,9 @@ FAMILIES = ["U", "U1", "W", "N", "P", "R", "M", "S"]
 @st.composite
 def case(draw, fam=None, kind=None):
     fam = fam or draw(st.sampled_from(FAMILIES))
-    if fam == "M":
+    if fam in ("N", "P") and kind is None and draw(st.integers(0, 2)) == 0:
+        m = draw(cells_model())
+    elif fam == "M":
         kind = kind or draw(st.sampled_from(["batch", "batch", "exch", "surf", "gas", "kin", "spec"]))
         m = draw(model(kind, want_mix=True))
     else:
@@ -455,7 +517,7 @@ def case(draw, fam=None, kind=None):
         lg = draw(st.integers(2, 300)) / 100.0 * draw(st.sampled_from([-1.0, 1.0]))
         c["xf"]["f"] = float("%.4g" % (10.0 ** lg))
     elif fam == "N":
-        c["xf"]["num"] = draw(renumbering(m))
+        c["xf"]["num"] = draw(cells_renumbering(m)) if m.get("cells") else draw(renumbering(m))
     elif fam == "P":
         c["xf"]["bkeys"] = draw(keys_list())
         c["xf"]["ikeys"] = draw(keys_list())
@@ -690,9 +752,56 @@ SELOUT = "SELECTED_OUTPUT 1\n -reset false\n -simulation true\n -state true\n -s
 KNOBS = "KNOBS\n -convergence_tolerance 1e-13\n -iterations 400"
 
 
+def render_cells(m, spec, view, exprs):
+    db = dbparse.load(m["db"])
+    bk, ik = view.get("bkeys"), view.get("ikeys")
+
+    def arrange(blocks, off):
+        if ik:
+            for bi, b in enumerate(blocks):
+                n = len(b["items"])
+                order = sorted(range(n), key=lambda j: (ik[(bi * 5 + j + off) % len(ik)], j))
+                b["items"] = [b["items"][j] for j in order]
+        if bk:
+            order = sorted(range(len(blocks)), key=lambda i: (bk[(i + off) % len(bk)], i))
+            blocks = [blocks[i] for i in order]
+        for which, where in view.get("dups") or []:
+            blocks.insert(where % (len(blocks) + 1), blocks[which % len(blocks)])
+        return "\n".join("\n".join([b["head"]] + b["opts"] + b["items"] + b.get("tail", [])) for b in blocks)
+
+    b1 = [{"head": KNOBS, "opts": [], "items": [], "tag": "knobs"}, {"head": SELOUT, "opts": [], "items": [], "tag": "selout"},
+          {"head": punch_block(exprs), "opts": [], "items": [], "tag": "punch"}]
+    for k, s in enumerate(m["sols"]):
+        b1.append(_sol_block(db, s, spec[k], view, _num(view, "solution", s["n"]), k))
+    sims = [arrange(b1, 0) + "\nEND"]
+    b2 = []
+    for c in m["cells"]:
+        items = [" %s %s %s%s" % (p["name"], fmt(p["si"]), fmt(p["moles"]), (" " + p["flag"]) if p["flag"] else "") for p in c["phases"]]
+        b2.append(_block("EQUILIBRIUM_PHASES %d" % _num(view, "equilibrium_phases", c["en"]), [], items, "eq"))
+    # order in which the cells are listed / reacted
+    order = list(range(len(m["cells"])))
+    if bk:
+        order = sorted(order, key=lambda i: (bk[(i + 7) % len(bk)], i))
+    if m["mode"] == "run_cells":
+        b2.append(_block("RUN_CELLS", [" -cells " + " ".join("%d" % _num(view, "solution", m["cells"][i]["n"]) for i in order)], [], "run"))
+        sims.append(arrange(b2, 3) + "\nEND")
+    else:
+        sims.append(arrange(b2, 3) + "\nEND")
+        for i in order:
+            c = m["cells"][i]
+            u = [_block("USE solution %d" % _num(view, "solution", c["n"]), tag="use"),
+                 _block("USE equilibrium_phases %d" % _num(view, "equilibrium_phases", c["en"]), tag="use")]
+            if bk and bk[(i + 13) % len(bk)] % 2:
+                u.reverse()
+            sims.append("\n".join(b["head"] for b in u) + "\nEND")
+    return "\n".join(sims) + "\n"
+
+
 def render(m, spec, view, exprs):
     """-> input text of the model under a view.
     view keys: f, num {kind: {old: new}}, spell (callable), density, bkeys, ikeys, dups, mixB"""
+    if m.get("cells"):
+        return render_cells(m, spec, view, exprs)
     db = dbparse.load(m["db"])
     sims = []
     mixB = view.get("mixB")
